@@ -2,7 +2,7 @@
    TrDrawBase.v: the calls each function makes (the events appended to the log block) and what they do to the text rows of the window
    (DrawWinDefs.replay = the model of DrawDefs.v). *)
 From Coq Require Import List ZArith NArith Bool Lia ZifyBool.
-From NV Require Import Bytes CLite CLiteProps GenCFuncs CLiteTac CLiteExt TrLbufBase TermEmu DrawDefs DrawProps DrawWinDefs TrDrawBase TrDrawWin.
+From NV Require Import Bytes CLite CLiteProps GenCFuncs CLiteTac CLiteExt TrLbufBase TermEmu DrawDefs DrawProps DrawWinDefs DrawWinProps TrDrawBase TrDrawWin.
 Import ListNotations.
 Local Open Scope Z_scope.
 
@@ -94,3 +94,166 @@ Section Row.
     rewrite mlog_mlog by exact Hkl. rewrite <- app_assoc. reflexivity.
   Qed.
 End Row.
+
+(* ------------------------------------------------------------------ vi_drawagain, vi_drawupdate *)
+(* for (i = a; i < a + cnt; i++) if (row < 0 || i == row) vi_drawrow(i) *)
+Fixpoint ag_evs (evs_of : Z -> list tev) (row a : Z) (cnt : nat) : list tev :=
+  match cnt with O => [] | S c => (if (row <? 0) || (a =? row) then evs_of a else []) ++ ag_evs evs_of row (a + 1) c end.
+Lemma ag_evs_all evs_of row cnt : row < 0 -> forall a, ag_evs evs_of row a cnt = range_evs evs_of a cnt.
+Proof.
+  intro Hr. induction cnt as [|c IH]; intro a; [reflexivity|]. cbn [ag_evs range_evs]. rewrite IH.
+  destruct (Z.ltb_spec row 0); [reflexivity|lia].
+Qed.
+Lemma ag_evs_one evs_of row cnt : 0 <= row -> forall a, ag_evs evs_of row a cnt = if (a <=? row) && (row <? a + Z.of_nat cnt) then evs_of row else [].
+Proof.
+  intro Hr. induction cnt as [|c IH]; intro a; [cbn [ag_evs]; destruct (Z.leb_spec a row); destruct (Z.ltb_spec row (a + Z.of_nat 0)); try reflexivity; lia|].
+  cbn [ag_evs]. rewrite IH. destruct (Z.ltb_spec row 0); [lia|]. cbn [orb].
+  destruct (Z.eqb_spec a row) as [->|E].
+  - destruct (Z.leb_spec (row + 1) row); [lia|]. cbn [andb]. rewrite app_nil_r.
+    destruct (Z.leb_spec row row); [|lia]. destruct (Z.ltb_spec row (row + Z.of_nat (S c))); [reflexivity|lia].
+  - cbn [app]. destruct (Z.leb_spec (a + 1) row); destruct (Z.leb_spec a row); destruct (Z.ltb_spec row (a + 1 + Z.of_nat c));
+      destruct (Z.ltb_spec row (a + Z.of_nat (S c))); try reflexivity; lia.
+Qed.
+
+Section Loops.
+  Variable ext : nat -> list val -> mem -> res (val * mem).
+  Variables (kl : nat) (h cols hl : Z).
+  Hypothesis Hk : kernel_ok ext kl h cols hl.
+  Variables (v : vst) (bl bln : nat) (lbs : list nat) (lines : list bytes) (ft : bytes) (d fuel : nat).
+  Hypothesis Hv : v_ok v.
+  Variable m : mem.
+  Hypothesis Hm : draw_mem m kl v bl bln lbs lines ft.
+  Hypothesis Hh : 0 <= h.
+  Hypothesis Ht : 0 <= v_xtop v.
+  Hypothesis Hth : v_xtop v + h <= 2147483647.
+
+  Notation evs_of := (drawrow_evs lines ft (v_xtop v) (v_xrow v) (v_xleft v) (v_xhll v) (v_xhl v) hl).
+  Notation call := (callx ext cprog fuel (S (S (S d)))).
+
+  Lemma drawrow_call lg i : i32b i -> i32b (i - v_xtop v) ->
+    callx ext cprog fuel (S (S (S d))) F_vi_drawrow [VInt i] (mlog m kl lg) = Ok (VUndef, mlog m kl (lg ++ evs_of i)).
+  Proof.
+    intros H1 H2. pose proof (dm_kl _ _ _ _ _ _ _ _ Hm) as Hkl.
+    rewrite (tr_vi_drawrow ext kl h cols hl Hk v bl bln lbs lines ft d fuel Hv (mlog m kl lg) lg i (draw_mem_mlog _ _ _ _ _ _ _ _ _ Hm) (log_at_mlog _ _ _ Hkl) H1 H2).
+    rewrite mlog_mlog by exact Hkl. reflexivity.
+  Qed.
+
+  Definition ag_loop : stmt := match fn_body cf_vi_drawagain with SSeq (SSeq _ l) _ => l | _ => SSkip end.
+
+  Lemma ag_loop_ok xcol row : forall cnt i lg fuel', i = v_xtop v + h - Z.of_nat cnt -> Z.of_nat cnt <= h -> (cnt < fuel')%nat ->
+    exec call fuel' ag_loop (mkst [xcol; VInt row; VInt i] (mlog m kl lg)) =
+    ONormal (mkst [xcol; VInt row; VInt (v_xtop v + h)] (mlog m kl (lg ++ ag_evs evs_of row i cnt))).
+  Proof.
+    pose proof Hv as (V1 & V2 & V3 & V4 & V5 & V6).
+    induction cnt as [|c IH]; intros i lg fuel' Ei Hc Hf; (destruct fuel' as [|fuel']; [lia|]);
+      pose proof (draw_mem_mlog _ _ _ _ _ _ _ _ lg Hm) as [H1 H2 H3 H4 H5 H6 Hb _ _ _ _ _ _];
+      unfold ag_loop; cbn [fn_body cf_vi_drawagain]; rewrite exec_for; xauto Hk.
+    - destruct (Z.ltb_spec i (v_xtop v + h)); [lia|]. xstep. cbn [ag_evs]. rewrite app_nil_r. repeat f_equal. lia.
+    - destruct (Z.ltb_spec i (v_xtop v + h)); [|lia]. xstep.
+      specialize (IH (i + 1)). unfold ag_loop in IH; cbn [fn_body cf_vi_drawagain] in IH. cbn [ag_evs].
+      destruct (Z.ltb_spec row 0) as [L|L]; xstep.
+      + rewrite drawrow_call by (unfold i32b in *; lia). xauto Hk. rewrite IH by lia. rewrite <- app_assoc. reflexivity.
+      + destruct (Z.eqb_spec i row) as [E|E]; xstep.
+        * rewrite drawrow_call by (unfold i32b in *; lia). xauto Hk. rewrite IH by lia. rewrite <- app_assoc. reflexivity.
+        * xauto Hk. rewrite IH by lia. reflexivity.
+  Qed.
+
+  Definition ag_init : stmt := match fn_body cf_vi_drawagain with SSeq (SSeq a _) _ => a | _ => SSkip end.
+  Definition ag_msg : stmt := match fn_body cf_vi_drawagain with SSeq _ a => a | _ => SSkip end.
+
+  Lemma msg_call lg : callx ext cprog fuel (S (S (S d))) X_vi_drawmsg [] (mlog m kl lg) = Ok (VInt 0, mlog m kl (lg ++ [TMsg])).
+  Proof.
+    pose proof (dm_kl _ _ _ _ _ _ _ _ Hm) as Hkl.
+    rewrite callx_S, x_vi_drawmsg_none, (k_msg _ _ _ _ _ Hk), (klog_ok _ _ lg _ (log_at_mlog _ _ _ Hkl)). rewrite mlog_mlog by exact Hkl. reflexivity.
+  Qed.
+
+  (* vi_drawagain(xcol, row): the rows xtop .. xtop + xrows - 1 in order, each once (row < 0) or the one row `row` when it is in the window,
+     then vi_drawmsg() *)
+  Theorem tr_vi_drawagain lg xcol row : log_at m kl lg -> (Z.to_nat h < fuel)%nat ->
+    callx ext cprog fuel (S (S (S (S d)))) F_vi_drawagain [xcol; VInt row] m
+    = Ok (VUndef, mlog m kl (lg ++ ag_evs evs_of row (v_xtop v) (Z.to_nat h) ++ [TMsg])).
+  Proof.
+    intros Hl Hf. pose proof Hm as [H1 H2 H3 H4 H5 H6 Hb _ _ _ Hkl _ _]. pose proof Hv as (V1 & V2 & V3 & V4 & V5 & V6).
+    assert (Hbody : fn_body cf_vi_drawagain = SSeq (SSeq ag_init ag_loop) ag_msg) by reflexivity.
+    rewrite callx_S. cbn [nth_error cprog F_vi_drawagain]. change (fn_nparams cf_vi_drawagain) with 2%nat. change (fn_nlocals cf_vi_drawagain) with 3%nat.
+    cbn [length Nat.eqb Nat.sub repeat app]. rewrite Hbody. rewrite !exec_seq.
+    assert (E1 : exec call fuel ag_init (mkst [xcol; VInt row; VUndef] m) = ONormal (mkst [xcol; VInt row; VInt (v_xtop v)] (mlog m kl lg))).
+    { unfold ag_init. cbn [fn_body cf_vi_drawagain]. xauto Hk. rewrite (mlog_self _ _ _ Hl). reflexivity. }
+    rewrite E1. rewrite (ag_loop_ok xcol row (Z.to_nat h) (v_xtop v) lg fuel) by lia.
+    unfold ag_msg. cbn [fn_body cf_vi_drawagain]. xstep. rewrite msg_call. xstep. rewrite <- app_assoc. reflexivity.
+  Qed.
+
+  (* ---- vi_drawupdate *)
+  Definition up_then : stmt := match fn_body cf_vi_drawupdate with SSeq _ (SSeq (SIf _ (SSeq _ (SSeq _ (SIf _ a _))) _) _) => a | _ => SSkip end.
+  Definition up_else : stmt := match fn_body cf_vi_drawupdate with SSeq _ (SSeq (SIf _ (SSeq _ (SSeq _ (SIf _ _ a))) _) _) => a | _ => SSkip end.
+  Definition up_loop1 : stmt := match up_then with SSeq _ (SSeq _ l) => l | _ => SSkip end.
+  Definition up_loop2 : stmt := match up_else with SSeq _ (SSeq _ l) => l | _ => SSkip end.
+
+  Lemma up_loop1_ok otop n l3 : 0 <= n <= h -> forall cnt i lg fuel', i = n - Z.of_nat cnt -> Z.of_nat cnt <= n -> (cnt < fuel')%nat ->
+    exec call fuel' up_loop1 (mkst [otop; VInt i; VInt n; l3] (mlog m kl lg)) =
+    ONormal (mkst [otop; VInt n; VInt n; l3] (mlog m kl (lg ++ range_evs evs_of (v_xtop v + h - n + i) cnt))).
+  Proof.
+    intro Hn. pose proof Hv as (V1 & V2 & V3 & V4 & V5 & V6).
+    induction cnt as [|c IH]; intros i lg fuel' Ei Hc Hf; (destruct fuel' as [|fuel']; [lia|]);
+      pose proof (draw_mem_mlog _ _ _ _ _ _ _ _ lg Hm) as [H1 H2 H3 H4 H5 H6 Hb _ _ _ _ _ _];
+      unfold up_loop1, up_then; cbn [fn_body cf_vi_drawupdate]; rewrite exec_for; xauto Hk.
+    - destruct (Z.ltb_spec i n); [lia|]. xstep. cbn [range_evs]. rewrite app_nil_r. repeat f_equal. lia.
+    - destruct (Z.ltb_spec i n); [|lia]. xauto Hk.
+      specialize (IH (i + 1)). unfold up_loop1, up_then in IH; cbn [fn_body cf_vi_drawupdate] in IH. cbn [range_evs].
+      rewrite drawrow_call by (unfold i32b in *; lia). xauto Hk. rewrite IH by lia. rewrite <- app_assoc.
+      replace (v_xtop v + h - n + i + 1) with (v_xtop v + h - n + (i + 1)) by lia. reflexivity.
+  Qed.
+  Lemma up_loop2_ok otop n l2 : 0 <= n <= h -> forall cnt i lg fuel', i = n - Z.of_nat cnt -> Z.of_nat cnt <= n -> (cnt < fuel')%nat ->
+    exec call fuel' up_loop2 (mkst [otop; VInt i; l2; VInt n] (mlog m kl lg)) =
+    ONormal (mkst [otop; VInt n; l2; VInt n] (mlog m kl (lg ++ range_evs evs_of (v_xtop v + i) cnt))).
+  Proof.
+    intro Hn. pose proof Hv as (V1 & V2 & V3 & V4 & V5 & V6).
+    induction cnt as [|c IH]; intros i lg fuel' Ei Hc Hf; (destruct fuel' as [|fuel']; [lia|]);
+      pose proof (draw_mem_mlog _ _ _ _ _ _ _ _ lg Hm) as [H1 H2 H3 H4 H5 H6 Hb _ _ _ _ _ _];
+      unfold up_loop2, up_else; cbn [fn_body cf_vi_drawupdate]; rewrite exec_for; xauto Hk.
+    - destruct (Z.ltb_spec i n); [lia|]. xstep. cbn [range_evs]. rewrite app_nil_r. repeat f_equal. lia.
+    - destruct (Z.ltb_spec i n); [|lia]. xauto Hk.
+      specialize (IH (i + 1)). unfold up_loop2, up_else in IH; cbn [fn_body cf_vi_drawupdate] in IH. cbn [range_evs].
+      rewrite drawrow_call by (unfold i32b in *; lia). xauto Hk. rewrite IH by lia. rewrite <- app_assoc.
+      replace (v_xtop v + i + 1) with (v_xtop v + (i + 1)) by lia. reflexivity.
+  Qed.
+
+  Lemma pos_call lg r c : callx ext cprog fuel (S (S (S d))) X_term_pos [VInt r; VInt c] (mlog m kl lg) = Ok (VInt 0, mlog m kl (lg ++ [TPos r c])).
+  Proof.
+    pose proof (dm_kl _ _ _ _ _ _ _ _ Hm) as Hkl.
+    rewrite callx_S, x_term_pos_none, (k_pos _ _ _ _ _ Hk), (klog_ok _ _ lg _ (log_at_mlog _ _ _ Hkl)). rewrite mlog_mlog by exact Hkl. reflexivity.
+  Qed.
+  Lemma room_call lg n : callx ext cprog fuel (S (S (S d))) X_term_room [VInt n] (mlog m kl lg) = Ok (VInt 0, mlog m kl (lg ++ [TRoom n])).
+  Proof.
+    pose proof (dm_kl _ _ _ _ _ _ _ _ Hm) as Hkl.
+    rewrite callx_S, x_term_room_none, (k_room _ _ _ _ _ Hk), (klog_ok _ _ lg _ (log_at_mlog _ _ _ Hkl)). rewrite mlog_mlog by exact Hkl. reflexivity.
+  Qed.
+
+  (* vi_drawupdate(otop): nothing but the message row when the top did not move; else term_pos(0, 0), term_room(otop - xtop), the
+     min(|otop - xtop|, xrows) rows the scroll exposed -- at the bottom when the window moved down, at the top when it moved up --,
+     then vi_drawmsg() *)
+  Theorem tr_vi_drawupdate lg otop : log_at m kl lg -> (Z.to_nat h < fuel)%nat -> 0 <= otop <= 2147483647 ->
+    callx ext cprog fuel (S (S (S (S d)))) F_vi_drawupdate [VInt otop] m
+    = Ok (VUndef, mlog m kl (lg ++ update_evs evs_of h otop (v_xtop v))).
+  Proof.
+    intros Hl Hf Ho. pose proof Hv as (V1 & V2 & V3 & V4 & V5 & V6). pose proof (dm_kl _ _ _ _ _ _ _ _ Hm) as Hkl.
+    rewrite <- (mlog_self _ _ _ Hl) at 1.
+    pose proof (draw_mem_mlog _ _ _ _ _ _ _ _ lg Hm) as [H1 H2 H3 H4 H5 H6 Hb _ _ _ _ _ _].
+    enterx F_vi_drawupdate cf_vi_drawupdate. unfold update_evs. xauto Hk.
+    destruct (Z.eqb_spec otop (v_xtop v)) as [E|E]; xauto Hk.
+    - rewrite msg_call. xstep. reflexivity.
+    - rewrite pos_call. xauto Hk. clear H1 H2 H3 H4 H5 H6 Hb.
+      pose proof (draw_mem_mlog _ _ _ _ _ _ _ _ (lg ++ [TPos 0 0]) Hm) as [H1 H2 H3 H4 H5 H6 Hb _ _ _ _ _ _]. xauto Hk.
+      rewrite room_call. xauto Hk. clear H1 H2 H3 H4 H5 H6 Hb.
+      pose proof (draw_mem_mlog _ _ _ _ _ _ _ _ ((lg ++ [TPos 0 0]) ++ [TRoom (otop - v_xtop v)]) Hm) as [H1 H2 H3 H4 H5 H6 Hb _ _ _ _ _ _]. xauto Hk.
+      destruct (Z.ltb_spec otop (v_xtop v)) as [L|L]; xauto Hk.
+      + match goal with |- context [exec ?c ?f (SFor ?a ?b ?s) ?st] => change (SFor a b s) with up_loop1 end.
+        match goal with |- context [VInt (if ?b then ?x else ?y)] => replace (if b then x else y) with (Z.min (v_xtop v - otop) h) by zeq end.
+        rewrite (up_loop1_ok (VInt otop) (Z.min (v_xtop v - otop) h) VUndef ltac:(lia) (Z.to_nat (Z.min (v_xtop v - otop) h)) 0) by lia.
+        xstep. rewrite msg_call. xstep. rewrite <- !app_assoc. cbn [app]. rewrite Z.add_0_r. reflexivity.
+      + match goal with |- context [exec ?c ?f (SFor ?a ?b ?s) ?st] => change (SFor a b s) with up_loop2 end.
+        match goal with |- context [VInt (if ?b then ?x else ?y)] => replace (if b then x else y) with (Z.min (otop - v_xtop v) h) by zeq end.
+        rewrite (up_loop2_ok (VInt otop) (Z.min (otop - v_xtop v) h) VUndef ltac:(lia) (Z.to_nat (Z.min (otop - v_xtop v) h)) 0) by lia.
+        xstep. rewrite msg_call. xstep. rewrite <- !app_assoc. cbn [app]. rewrite Z.add_0_r. reflexivity.
+  Qed.
+End Loops.
